@@ -5,6 +5,9 @@ import vlib
 from runner import Property, ExecError
 from vlib import cz, clist, cbool
 
+# adds VerifWrapFlight to core/syncx (decorate ResourceManager.singleFlight with a gate)
+OVERLAY = {"core/syncx/verif_hooks.go": "/verif/harness/overlay/syncx/verif_hooks.go"}
+
 KIND = {0: "GSF", 1: "GLC", 2: "GRM", 3: "GSF"}
 EK = {"inv": 0, "fs": 1, "fe": 2, "ret": 3}
 
@@ -54,7 +57,7 @@ class C07(Property):
     race_bin = None
 
     def prepare(self, ctx):
-        ok, res = vlib.go_build("c07")
+        ok, res = vlib.go_build("c07", overlay=OVERLAY)
         self.bin = res if ok else None
         return ok, ("" if ok else res)
 
@@ -79,6 +82,9 @@ class C07(Property):
         # resource manager: failed creation, retry, then shared
         cs.append({"scripts": self._mk_scripts([[(2, 1, 5)], [(2, 1, 0)], [(2, 1, 0)], [(2, 1, 0)]]), "sched": [0, 1, 0, 2, 2, 3]})
         cs.append({"scripts": self._mk_scripts([[(2, 1, 0), (2, 1, 0)], [(2, 1, 0)], [(2, 2, 3)]]), "sched": [0, 1, 2, 0, 2, 0]})
+        # GetResource: X is invoked and stops in front of singleflight; Y completes a whole call; X goes on
+        cs.append({"scripts": self._mk_scripts([[(2, 1, 0)], [(2, 1, 0)]]), "sched": [0, 1, 1, 1, 0, 0]})
+        cs.append({"scripts": self._mk_scripts([[(2, 1, 0)], [(2, 1, 4)], [(2, 1, 0)]]), "sched": [0, 2, 1, 1, 1, 2, 2, 2, 0, 0]})
         return cs
 
     def _enumerated(self, rng, tier):
@@ -89,6 +95,16 @@ class C07(Property):
                 for sch in interleavings([2] * n):
                     kind = 0
                     cases.append({"scripts": self._mk_scripts([[(kind, k, 0)] for k in keys]), "sched": sch})
+        # ResourceManager: three gate-level steps per call (invoke / enter singleflight / create returns)
+        for keys in pats[2]:
+            for sch in interleavings([3, 3]):
+                for errs in ((0, 0), (3, 0)):
+                    cases.append({"scripts": self._mk_scripts([[(2, k, e)] for k, e in zip(keys, errs)]), "sched": sch})
+        if tier != "quick":
+            rm3 = [s for s in interleavings([3, 3, 3])]
+            rng.shuffle(rm3)
+            for sch in rm3[:500]:
+                cases.append({"scripts": self._mk_scripts([[(2, 1, 0)], [(2, 1, 0)], [(2, 1, rng.choice([0, 0, 2]))]]), "sched": sch})
         if tier != "quick":
             for keys in [(1, 1, 1, 1), (1, 1, 2, 2), (1, 1, 1, 2)]:
                 for sch in interleavings([2] * 4):
@@ -160,7 +176,7 @@ class C07(Property):
                 if x is None or x["st"] == 2:
                     sts.append([2, 0])
                 elif x["st"] == 0:
-                    sts.append([0 if x.get("l") == "call" else 3, x["op"]])
+                    sts.append([{"call": 0, "pre": 4}.get(x.get("l"), 3), x["op"]])
                 else:
                     sts.append([1, x["op"]])
                     if not s["skip"]:
@@ -237,7 +253,7 @@ class C07(Property):
         if ctx.tier != "thorough":
             return []
         import random
-        ok, res = vlib.go_build("c07", race=True)
+        ok, res = vlib.go_build("c07", overlay=OVERLAY, race=True)
         if not ok:
             raise ExecError("c07 -race build failed: %s" % res[-1500:])
         rng = random.Random(ctx.seed * 31 + 7)
